@@ -910,7 +910,9 @@ func runModelHistory(id int, seed int64, mix string, n int, script []Cmd) ModelH
 	var snaps [][]byte
 	var dumps []*fullDump
 	var rawResults []string
+	var stale []bool
 	for i := 0; i <= n; i++ {
+		stale = append(stale, staleChecks(d.store()))
 		b, err := d.snapshot()
 		if err != nil {
 			h.Failures = append(h.Failures, Failure{Cut: i, Stage: "snapshot", Signature: map[string]any{"kind": "snapshot-failed"}, Detail: err.Error()})
@@ -964,11 +966,15 @@ func runModelHistory(id int, seed int64, mix string, n int, script []Cmd) ModelH
 			m.close()
 			continue
 		}
+		relax := false
+		for i := k; i < len(stale); i++ {
+			relax = relax || stale[i]
+		}
 		mc.Restored = modelDump(m.store())
 		mc.Reads[0], _, _ = m.store().KVSList(nil, "", nil)
 		mc.Reads[1], _, _ = m.store().SessionList(nil, nil)
 		mc.Reads[2], _, _ = m.store().PreparedQueryList(nil)
-		addF(compareDumps(k, "dump", dumps[k], dumpStore(m.store())))
+		addF(compareDumps(k, "dump", dumps[k], dumpStore(m.store()), relax))
 		for i := k; i < n; i++ {
 			res := canonResult(m.apply(h.Cmds[i].Idx, mEncode(&h.Cmds[i])))
 			if res != rawResults[i] {
@@ -979,9 +985,33 @@ func runModelHistory(id int, seed int64, mix string, n int, script []Cmd) ModelH
 		}
 		fd := modelDump(m.store())
 		mc.Final = &fd
-		addF(compareDumps(k, "suffix-dump", dumps[n], dumpStore(m.store())))
+		addF(compareDumps(k, "suffix-dump", dumps[n], dumpStore(m.store()), relax))
 		m.close()
 		h.Cuts = append(h.Cuts, mc)
 	}
 	return h
+}
+
+// corpusScripts: coq/Snapshot/Witness.v stale_log (a service re-registered under another name:
+// its check keeps the old ServiceName until a restore re-copies it) and rich_log.
+func corpusScripts() [][]Cmd {
+	ck := func(node, id string, status int, svc string, stype bool, sname string, out int) CheckReq {
+		return CheckReq{Node: node, ID: id, Status: status, Service: svc, SessType: stype, SessName: sname, Output: out}
+	}
+	stale := []Cmd{
+		{Kind: "register", Idx: 1, Node: "n1", Addr: 1, HasSvc: true, Svc: "s1", SvcName: "web", Port: 80, RegCheck: []CheckReq{ck("n1", "c1", 0, "s1", false, "", 0)}},
+		{Kind: "register", Idx: 2, Node: "n1", Addr: 1, HasSvc: true, Svc: "s1", SvcName: "db", Port: 80},
+	}
+	rich := []Cmd{
+		{Kind: "register", Idx: 1, Node: "n1", ID: "11111111-1111-1111-1111-111111111111", Addr: 1, HasSvc: true, Svc: "s1", SvcName: "web", Port: 80,
+			RegCheck: []CheckReq{ck("n1", "c1", 0, "s1", false, "", 0), ck("n1", "c2", 0, "", false, "", 1), ck("n1", "sc1", 2, "", true, "lockA", 0)}},
+		{Kind: "register", Idx: 3, Node: "n2", Addr: 2, RegCheck: []CheckReq{ck("n2", "serfHealth", 0, "", false, "", 0)}},
+		{Kind: "session_create", Idx: 4, Sid: "aaaaaaaa-aaaa-aaaa-aaaa-aaaaaaaaaaaa", Node: "n1", Name: "lockA", Checks: []string{"c2"}, Delay: true},
+		{Kind: "kvs", Idx: 6, Verb: "lock", KV: &KVReq{Key: "a/b", Value: "0102", Flags: 7, Session: "aaaaaaaa-aaaa-aaaa-aaaa-aaaaaaaaaaaa"}},
+		{Kind: "kvs", Idx: 7, Verb: "set", KV: &KVReq{Key: "b"}},
+		{Kind: "kvs", Idx: 9, Verb: "delete", KV: &KVReq{Key: "b"}},
+		{Kind: "query_set", Idx: 10, Qid: "99999999-9999-9999-9999-999999999991", Sid: "aaaaaaaa-aaaa-aaaa-aaaa-aaaaaaaaaaaa"},
+		{Kind: "txn", Idx: 12, Ops: []TxnOp{{Kind: "kv", Verb: "set", KV: &KVReq{Key: "a", Value: "03"}}, {Kind: "service", Verb: "set", Node: "n2", Svc: "s2", Name: "db", Port: 81}}},
+	}
+	return [][]Cmd{stale, rich}
 }
